@@ -294,6 +294,12 @@ class SyncDrive(_BaseDrive):
         held, self.held_tasks = self.held_tasks or [], None
         for th in held:
             th.start()
+            # (a join() issued while they were held has dropped them from
+            # the list: the next join() must wait for them)
+            if th not in self.threads and getattr(
+                    getattr(th, '_target', None), '__name__', '') not in (
+                        '_thread', '_emit_server_stats'):
+                self.threads.append(th)
 
     def call(self, fn, *a, **kw):
         r = fn(*a, **kw)
